@@ -120,6 +120,13 @@ def classify_error(text: str) -> str:
     lines = [ln for ln in text.strip().splitlines() if ln.strip()]
     last = lines[-1] if lines else ''
     et = last.split(':')[0].strip().split('.')[-1] if last else 'unknown'
+    # multi-line messages: the exception line is the last one that looks
+    # like "SomeError: ..." at column 0
+    for ln in reversed(lines):
+        m = re.match(r'^([A-Za-z_][\w.]*(?:Error|Exception|Interrupt))\b', ln)
+        if m:
+            et = m.group(1).split('.')[-1]
+            break
     frame = 'none'
     for fn, func in _FRAME.findall(text):
         if '/bqskit/' in fn:
